@@ -276,6 +276,34 @@ func c15TypedOperators(p *core.Program, r *core.Report, e *engines) {
 	n := 0
 	for _, op := range ops {
 		ats := assertedOperandTypes(p, e, op)
+		// is the opcode a SPECIALISED variant: emitted under a condition that was taken?
+		specialised := false
+		for _, t := range e.em.Templates["BinaryNode"] {
+			has := false
+			for _, ev := range t.Events {
+				if ev.Kind == "instr" && ev.Op == op {
+					has = true
+				}
+			}
+			if !has {
+				continue
+			}
+			for _, c := range t.Conds {
+				if c.Case == nil && c.Expr != nil && c.Taken {
+					specialised = true
+				}
+			}
+		}
+		if specialised {
+			okAssert := len(ats) == 2 && ats[0] != nil && ats[1] != nil
+			if okAssert {
+				b0, ok0 := ats[0].(*types.Basic)
+				b1, ok1 := ats[1].(*types.Basic)
+				okAssert = ok0 && ok1 && b0 == b1
+			}
+			r.Check(okAssert, "R15.2", "vm.(VM).Run/case "+op+"/a type-selected instruction hard-asserts its operands' type", p.Pos(e.vm.Handlers[op].Clause.Pos()), "both operands asserted to one predeclared type",
+				"the handler of "+op+", an instruction the code generator selects from static types, does not hard-assert one predeclared type on both operands (it converts or dispatches instead): when the static type was only an approximation of the run-time value (arithmetic over a dynamic operand is typed int), the typed program now computes on a converted value and SUCCEEDS with another result than the untyped program, instead of failing")
+		}
 		if len(ats) != 2 || ats[0] == nil || ats[1] == nil {
 			continue
 		}
@@ -863,6 +891,7 @@ func c15Untyped(p *core.Program, r *core.Report) {
 
 func c15Controls() []core.Mutant {
 	return []core.Mutant{
+		{Name: "integer equality instruction converts instead of asserting", File: "vm/vm.go", Old: "vm.push(a.(int) == b.(int))", New: "vm.push(toInt(a) == toInt(b))", Rule: "R15.2", Construct: "OpEqualInt/a type-selected instruction hard-asserts"},
 		{Name: "integer equality selected by kind alone", File: "compiler/compiler.go", Old: "if simple && l == r && l == reflect.Int {", New: "if l == r && l == reflect.Int {", Rule: "R15.2", Construct: "OpEqualInt"},
 		{Name: "fast call for every variadic function with an interface result", File: "checker/checker.go", Old: "fn.Out(0) == interfaceType {", New: "fn.Out(0).Kind() == reflect.Interface {", Rule: "R15.2", Construct: "fast-call flag"},
 		{Name: "fast call also for named function types", File: "checker/checker.go", Old: "if rest == arrayType && fn.Name() == \"\" {", New: "if rest == arrayType {", Rule: "R15.2", Construct: "fast-call flag"},
